@@ -153,6 +153,15 @@ class Repo:
             except SyntaxError:
                 continue
             self.reference[name] = ref
+            # `a, b, c = (f(v) for v in (x, y, z))` is read as the three assignments written out (sa/unroll.py)
+            try:
+                from .unroll import unroll_in_function
+
+                for q, fi in m.funcs.items():
+                    if "<locals>" not in q and unroll_in_function(fi.node):
+                        self.inlined.setdefault(f"{name}.{q}", []).append("comprehension over a literal tuple unpacked into single assignments")
+            except Exception as ex:  # a reading aid; without it the rules see the statement as written
+                self.inlined[f"{name}.<unroll-error>"] = [repr(ex)]
             # undo "extract function": inline helpers that the reference does not have (sa/inline.py)
             try:
                 from .inline import inline_in_function
@@ -177,7 +186,7 @@ class Repo:
                         log: List[str] = []
                         inline_in_function(fi.node, helpers, fi.cls.name if fi.cls is not None else None, log)
                         if log:
-                            self.inlined[f"{name}.{q}"] = log
+                            self.inlined.setdefault(f"{name}.{q}", []).extend(log)
             except Exception as ex:  # inlining is an aid; without it the rules see the calls
                 self.inlined[f"{name}.<error>"] = [repr(ex)]
             for q, fi in m.funcs.items():
